@@ -68,10 +68,32 @@ pub struct Violation {
     pub extra: String,
 }
 
+/// A violation of a property that is not about one `parse_float` input: carries its own
+/// description and the argv that re-executes exactly this case (`mlx <argv...>`).
+pub fn api_violation(kind: &str, fmt: &'static str, show: String, got: String, want: String, argv: Vec<String>) -> Violation {
+    let argv_json = argv.iter().map(|a| jstr(a)).collect::<Vec<_>>().join(",");
+    Violation {
+        kind: kind.to_string(),
+        fmt,
+        int: Vec::new(),
+        frac: Vec::new(),
+        exp: 0,
+        fam: String::new(),
+        got,
+        want,
+        extra: format!("\"replay_argv\":[{}],\"show\":{}", argv_json, jstr(&show)),
+    }
+}
+
 impl Violation {
     pub fn json(&self) -> String {
+        let default_show = if self.extra.contains("\"show\":") {
+            String::new()
+        } else {
+            format!(",\"show\":{}", jstr(&format!("{}.{}e{}", abbrev(&self.int), abbrev(&self.frac), self.exp)))
+        };
         format!(
-            "{{\"kind\":{},\"fmt\":{},\"int\":{},\"frac\":{},\"exp\":{},\"fam\":{},\"got\":{},\"want\":{},\"show\":{}{}}}",
+            "{{\"kind\":{},\"fmt\":{},\"int\":{},\"frac\":{},\"exp\":{},\"fam\":{},\"got\":{},\"want\":{}{}{}}}",
             jstr(&self.kind),
             jstr(self.fmt),
             rle(&self.int),
@@ -80,7 +102,7 @@ impl Violation {
             jstr(&self.fam),
             jstr(&self.got),
             jstr(&self.want),
-            jstr(&format!("{}.{}e{}", abbrev(&self.int), abbrev(&self.frac), self.exp)),
+            default_show,
             if self.extra.is_empty() { String::new() } else { format!(",{}", self.extra) }
         )
     }
